@@ -298,6 +298,18 @@ def block_size_is_a_bound(facts, res, R="C08.5.block-size-is-a-bound"):
                     if not any(a.get("k") in ("CallExpr",) and tbf.callee_name(a) == "min" for a in tbf.ancestors(z)):
                         return z
             return None
+        # a local that is just the raw block size under another name is raw too
+        grew = True
+        while grew:
+            grew = False
+            for v in walk(body):
+                if v.get("k") == "VarDecl" and kids(v) and v.get("did") not in params:
+                    i0 = strip(kids(v)[0])
+                    while i0.get("k") in ("CXXStaticCastExpr", "CStyleCastExpr", "CXXFunctionalCastExpr") and len(kids(i0)) == 1:
+                        i0 = strip(kids(i0)[0])
+                    if (i0.get("k") == "DeclRefExpr" and i0.get("did") in params) or (i0.get("k") in ("MemberExpr", "CXXDependentScopeMemberExpr") and i0.get("name") in members):
+                        params = params | {v["did"]}
+                        grew = True
         for x in walk(body):
             k = x.get("k")
             if k in ("CallExpr", "CXXMemberCallExpr") and tbf.callee_name(x) in ("reserve", "resize") and tbf.call_args(x):
